@@ -2,6 +2,7 @@ import PlasVerif.Driver.Util
 import PlasVerif.Driver.C05Sig
 import PlasVerif.Model.Args
 import PlasVerif.Spec.Literals
+import PlasVerif.Spec.Conform
 import PlasVerif.Spec.Calls
 import PlasVerif.Generated.ArgPaths
 /-!
@@ -15,7 +16,7 @@ Driver of C05.  Streams (words after `C05`):
 token words: c<code> | s | { | } | x<c.c.c> (control sequence) | r<int> (register with value)
 -/
 namespace PlasVerif.Driver.C05
-open PlasVerif.Driver PlasVerif.Model.Numbers PlasVerif.Model.Args PlasVerif.Spec.Literals PlasVerif.Spec.Calls
+open PlasVerif.Driver PlasVerif.Model.Numbers PlasVerif.Model.Args PlasVerif.Spec.Literals PlasVerif.Spec.Calls PlasVerif.Spec.Conform
 
 def cps? (w : String) : Option (List Nat) :=
   if w == "-" then some [] else (w.splitOn ".").mapM String.toNat?
@@ -157,17 +158,19 @@ def handleLit (ws : List String) : String :=
       match l with
       | .i l =>
         let toks := l.render
-        s!"{showI (readInteger true (toks ++ rest))}\t{if l.wf then s!"ok i:{l.den} rest:{srcOf rest}" else "-"}\t{joinSp (toks.map tokWord)}"
+        s!"{showI (readInteger true (toks ++ rest))}\t{if l.wf && intFollow l rest then s!"ok i:{l.den} rest:{srcOf rest}" else "-"}\t{joinSp (toks.map tokWord)}"
       | .d l =>
         let toks := l.render
-        s!"{showQ (readDecimal (toks ++ rest))}\t{if l.body.wf then s!"ok {ratStr l.den} rest:{srcOf rest}" else "-"}\t{joinSp (toks.map tokWord)}"
+        s!"{showQ (readDecimal (toks ++ rest))}\t{if l.body.wf && decFollow l.body rest then s!"ok {ratStr l.den} rest:{srcOf rest}" else "-"}\t{joinSp (toks.map tokWord)}"
       | .m l =>
         let toks := l.render
-        s!"{showD (readDimen stretchUnits (toks ++ rest))}\tok {dvStr l.den} rest:{srcOf rest}\t{joinSp (toks.map tokWord)}"
+        let sp := if dimWf true l && dimFollow l rest then s!"ok {dvStr l.den} rest:{srcOf rest}" else "-"
+        s!"{showD (readDimen stretchUnits (toks ++ rest))}\t{sp}\t{joinSp (toks.map tokWord)}"
       | .g l =>
         let toks := l.render
         let v := l.den
-        s!"{showG (readGlue (toks ++ rest))}\tok {dvStr v.dim} plus {optDv v.stretch} minus {optDv v.shrink} rest:{srcOf rest}\t{joinSp (toks.map tokWord)}"
+        let sp := if glueWf l && glueFollow l rest then s!"ok {dvStr v.dim} plus {optDv v.stretch} minus {optDv v.shrink} rest:{srcOf rest}" else "-"
+        s!"{showG (readGlue (toks ++ rest))}\t{sp}\t{joinSp (toks.map tokWord)}"
   | _ => "bad-op"
 
 /- ---------- arguments ---------- -/
